@@ -856,3 +856,95 @@ Proof.
     rewrite (H2 c Hc). destruct (C w c Hw Hc) as [G _]. rewrite G. reflexivity. }
   split; apply K; auto.
 Qed.
+
+(* ---- P2 (gap bijection) for custom codon sets and every gap set ------------------------------------------------------------------- *)
+Lemma starts_w_degap sw s f : letters_ok sw -> nonempty_words sw ->
+  starts_w sw (degap s) f = map (rbZ (strand_str s f)) (starts_w sw s f).
+Proof.
+  intros Lo NE. unfold starts_w. rewrite hits_degap by assumption.
+  rewrite !map_map. apply map_ext. intros [i e]. unfold rbZ, rb_pair. cbn [fst]. rewrite Nat2Z.id. reflexivity.
+Qed.
+Lemma stops_w_degap pw s f : letters_ok pw -> nonempty_words pw ->
+  stops_w pw (degap s) f = map (rbZ (strand_str s f)) (stops_w pw s f).
+Proof.
+  intros Lo NE. unfold stops_w. rewrite hits_degap by assumption.
+  rewrite !map_map. apply map_ext. intros [i e]. unfold rbZ, rb_pair. cbn [snd]. rewrite Nat2Z.id. reflexivity.
+Qed.
+Lemma starts_w_res_col sw s f : letters_ok sw -> nonempty_words sw -> Forall (res_col (strand_str s f)) (starts_w sw s f).
+Proof.
+  intros Lo NE. apply Forall_forall. intros a H. unfold starts_w in H. apply in_map_iff in H.
+  destruct H as [[i e] [E H]]. cbn in E. subst a. unfold hits in H. apply filter_In in H. destruct H as [H _].
+  destruct (finditer_head _ _ _ _ _ _ NE H) as [_ [c [w [Hw Hn]]]]. rewrite Nat.sub_0_r in Hn.
+  assert (G : is_gap c = false) by (apply (Lo (c :: w) c Hw); left; reflexivity).
+  split; [lia|]. unfold rbZ. replace (Z.to_nat (Z.of_nat i + 1)) with (Datatypes.S i) by lia.
+  rewrite Nat2Z.id, (rb_S_res _ _ _ Hn G). lia.
+Qed.
+Lemma stops_w_stoplike pw s f : letters_ok pw -> nonempty_words pw ->
+  Forall (stoplike (rbZ (strand_str s f)) (Z.of_nat (length s))) (stops_w pw s f).
+Proof.
+  intros Lo NE. apply Forall_forall. intros z H. pose proof (stops_w_bound pw s f NE) as B. rewrite Forall_forall in B.
+  specialize (B _ H). unfold stop_in in B. split; [lia|].
+  unfold stops_w in H. apply in_map_iff in H. destruct H as [[i e] [E H]]. cbn in E. subst z.
+  unfold hits in H. apply filter_In in H. destruct H as [H _].
+  destruct (finditer_last _ _ _ _ _ _ Lo NE H) as [Hlt [c [N G]]].
+  rewrite Nat.sub_0_r in N. unfold rbZ. replace (Z.to_nat (Z.of_nat e - 1)) with (e - 1)%nat by lia.
+  rewrite Nat2Z.id. pose proof (rb_S_res _ _ _ N G) as RS. replace (Datatypes.S (e - 1)) with e in RS by lia. lia.
+Qed.
+
+Theorem frame_gap_bijection_w sw pw ns need_stop s f :
+  letters_ok sw -> nonempty_words sw -> letters_ok pw -> nonempty_words pw ->
+  exists l, frame_orfs_w sw pw ns need_stop 0 s f = ROk l /\ frame_orfs_w sw pw ns need_stop 0 (degap s) f = ROk (map (ren_orf s) l).
+Proof.
+  intros Lo1 NE1 Lo2 NE2. set (t := strand_str s f).
+  assert (S : sim (rbZ t) (Z.of_nat (length s)) (Z.of_nat (length (degap s))) f
+                (frame_orfs_w sw pw ns need_stop 0 s f) (frame_orfs_w sw pw ns need_stop 0 (degap s) f)).
+  { unfold frame_orfs_w. rewrite starts_w_degap, stops_w_degap, !map_length by assumption. fold t.
+    rewrite strand_data_degap, (last_res_gapfree _ (degap_gapfree _)).
+    assert (ELd : length (degap (strand_data s f)) = length (degap s)).
+    { rewrite !nres_degap. unfold strand_data. destruct (f >=? 0); [reflexivity|apply nres_rev]. }
+    rewrite ELd.
+    change (@None Z) with (option_map (rbZ t) None) at 2.
+    apply frame_loop_sim.
+    - intros x y H. apply rbZ_mono. exact H.
+    - intros x Hx. unfold rbZ. pose proof (rb_le_nres t (Z.to_nat x)). unfold t in *. rewrite nres_strand in H.
+      rewrite nres_degap. lia.
+    - unfold rbZ. rewrite Nat2Z.id. unfold t.
+      replace (length s) with (length (strand_str s f)) by apply strand_str_length. rewrite rb_full, nres_strand.
+      rewrite nres_degap. reflexivity.
+    - pose proof (last_res_le (strand_data s f)).
+      assert (length (strand_data s f) = length s) by (unfold strand_data; destruct (f >=? 0); [reflexivity|apply rev_length]).
+      lia.
+    - intros x Hx. rewrite <- last_res_strand. fold t. unfold rbZ. rewrite nres_degap, <- (nres_strand s f). fold t.
+      pose proof (last_res_rb t (Z.to_nat x)). lia.
+    - eapply Forall_impl; [|apply starts_w_res_col; assumption]. intros a Ha. exact Ha.
+    - apply stops_w_stoplike; assumption.
+    - intros p Ep. discriminate.
+    - split; [lia|]. unfold frame_start.
+      pose proof (frame_start_degap (strand_data s f) (Z.to_nat (if f >=? 0 then f else - f - 1))) as FD.
+      cbn zeta in FD. destruct FD as [[F1 F2]|[F1 F2]].
+      + left. split; [lia|]. rewrite F2. unfold rbZ, t. rewrite Nat2Z.id, rb_strand. reflexivity.
+      + right. split; [lia|]. rewrite ELd in F2. lia.
+    - lia.
+    - lia. }
+  destruct S as [ps [E [E' B]]]. exists (map (mk_orf f (Z.of_nat (length s))) ps). split; [exact E|].
+  rewrite E'. f_equal. rewrite !map_map. apply map_ext_in. intros [a e] Hin.
+  rewrite Forall_forall in B. specialize (B _ Hin). cbn [fst snd] in B.
+  apply (mk_orf_ren s f a e); lia.
+Qed.
+
+Theorem custom_gap_bijection g sw pw rf ns need_stop s :
+  gap_safe g = true -> words_ok g sw = true -> words_ok g pw = true ->
+  exists l, find_orfs_x g sw pw rf ns need_stop 0 s = ROk l /\
+            find_orfs_x g sw pw rf ns need_stop 0 (degap_g g s) =
+            ROk (map (fun o => mkorf (rbZ_g g s (o_start o)) (rbZ_g g s (o_stop o)) (o_plus o) (o_rf o)) l).
+Proof.
+  intros S W1 W2. destruct (words_ok_facts g sw W1) as [NE1 C1]. destruct (words_ok_facts g pw W2) as [NE2 C2].
+  pose proof (clean_letters_ok g sw C1) as Lo1. pose proof (clean_letters_ok g pw C2) as Lo2.
+  unfold find_orfs_x. induction (frames_of rf) as [|f fr IH].
+  - exists []. split; reflexivity.
+  - destruct IH as [l2 [E2 D2]]. cbn [orfs_frames_x]. rewrite E2, D2.
+    rewrite !frame_orfs_x_transfer by assumption. rewrite <- degap_to_dash.
+    destruct (frame_gap_bijection_w sw pw ns need_stop (to_dash g s) f Lo1 NE1 Lo2 NE2) as [l1 [E1 D1]].
+    rewrite E1, D1. cbn [app_res]. exists (l1 ++ l2). split; [reflexivity|]. rewrite map_app. f_equal. f_equal.
+    apply map_ext. intros o. unfold ren_orf, rbZ, rbZ_g. rewrite !rb_to_dash. reflexivity.
+Qed.
